@@ -1,9 +1,9 @@
 CONSTANTS
-  Users = {"u1", "u2"}
-  SvcNames = {"s1"}
+  Users = {"u1"}
+  SvcNames = {"s1", "s2"}
   Eids = {"e1", "e2"}
   Shortcuts = {"c1"}
-  MaxSess = 1
+  MaxSess = 2
   WithFaults = TRUE
 INIT Init
 NEXT Next
